@@ -31,6 +31,7 @@ type Cfg struct {
 	Bank       []int64  `json:"bankrolls"`
 	Deck       []string `json:"deck"`
 	Theme      string   `json:"deck_theme,omitempty"`
+	BurnOpt    int      `json:"burn_opt,omitempty"` // 0: the default BurnCount option; k > 0: BurnCount = k-1 (the rules burn one card per street whatever it says)
 	// ConstructorDeck: hand the engine the slice returned by its own deck
 	// constructor (what table/ does) and keep whatever order Start() shuffles it to
 	ConstructorDeck bool `json:"constructor_deck,omitempty"`
@@ -105,6 +106,9 @@ func (c *Cfg) Options() *pf.GameOptions {
 	o.Ante, o.Blind.SB, o.Blind.BB, o.Blind.Dealer = c.Ante, c.SB, c.BB, c.DB
 	o.Limit = c.Limit
 	o.HoleCardsCount, o.RequiredHoleCardsCount = c.Hole, c.Req
+	if c.BurnOpt > 0 {
+		o.BurnCount = c.BurnOpt - 1
+	}
 	o.Deck = append([]string{}, c.Deck...)
 	if c.ConstructorDeck {
 		o.Deck = baseDeck(c.ShortDeck)
@@ -233,6 +237,12 @@ func GenCfg(rt *rapid.T, pr Profile) *Cfg {
 		}
 	}
 	c.Deck, c.Theme = GenDeck(rt, c, pr)
+	if rapid.IntRange(0, 7).Draw(rt, "burnOption") == 0 {
+		c.BurnOpt = rapid.IntRange(1, 4).Draw(rt, "burnCount")
+		for c.Hole*c.N+8 > len(c.Deck) {
+			c.N-- // (cannot happen: the option does not change what is dealt)
+		}
+	}
 	if !pr.noPrelude && rapid.IntRange(0, 9).Draw(rt, "reuseGameObject") == 0 {
 		sub := pr
 		sub.noPrelude = true
